@@ -4,13 +4,15 @@
 REPO="${1:-/repo}"
 cd "$REPO" || exit 2
 export GOPROXY=off GOSUMDB=off GOTOOLCHAIN=local
-go test -mod=mod -json -vet=off -count=1 -timeout 25m ./... > /tmp/baseline_run.json 2>/tmp/baseline_run.err
-python3 - <<'PY'
-import json,sys
+OUT=$(mktemp /tmp/baseline_run.XXXXXX)
+trap 'rm -f "$OUT" "$OUT.err"' EXIT
+go test -mod=mod -json -vet=off -count=1 -timeout 25m ./... > "$OUT" 2>"$OUT.err"
+BASELINE_OUT="$OUT" python3 - <<'PY'
+import json,sys,os
 b=json.load(open('/root/.vp/BASELINE.json'))
 want=set(b['stable_pass'])
 res={}
-for l in open('/tmp/baseline_run.json'):
+for l in open(os.environ['BASELINE_OUT']):
     try: e=json.loads(l)
     except Exception: continue
     if e.get('Test') and e.get('Action') in ('pass','fail','skip'):
